@@ -67,6 +67,27 @@ pub fn gen(tier: Tier, rng: &mut Rng) -> Vec<Sx> {
         if !ops.iter().any(|o| o.at(0).as_u() == 3) { ops.push(Sx::l(vec![Sx::n(3)])); }
         v.push(Sx::l(vec![Sx::b(sorted), Sx::l(rules), Sx::l(ops)]));
     }
+    // working-memory indexes, systematically: n facts (3..5, thorough 6) spread over 1 or 2 types, retracted in EVERY order,
+    // with an update or a fire_all squeezed in at a random place; every lookup (by handle, by type, full listing) is observed after every op
+    let maxn = if tier == Tier::Thorough { 6 } else { 5 };
+    for n in 3..=maxn {
+        let mut perm: Vec<i64> = (1..=n as i64).collect();
+        let mut perms: Vec<Vec<i64>> = vec![];
+        fn rec(k: usize, p: &mut Vec<i64>, out: &mut Vec<Vec<i64>>) { if k == p.len() { out.push(p.clone()); return; } for i in k..p.len() { p.swap(k, i); rec(k + 1, p, out); p.swap(k, i); } }
+        rec(0, &mut perm, &mut perms);
+        for (pi, pm) in perms.iter().enumerate() {
+            let two_types = pi % 3 == 2;
+            let rules = vec![Sx::l(vec![Sx::i(0), Sx::i(0), Sx::i(0), Sx::b(true), gen_cond(rng, 1), Sx::l(vec![Sx::n(0)])])];
+            let mut ops: Vec<Sx> = (0..n).map(|i| Sx::l(vec![Sx::n(0), Sx::i(if two_types { (i % 2) as i64 } else { 0 }), gen_data(rng)])).collect();
+            let extra_at = rng.below(n as u64 + 1) as usize;
+            for (k, h) in pm.iter().enumerate() {
+                if k == extra_at { ops.push(if rng.chance(1, 2) { Sx::l(vec![Sx::n(3)]) } else { Sx::l(vec![Sx::n(1), Sx::i(*rng.pick(pm)), gen_data(rng)]) }); }
+                ops.push(Sx::l(vec![Sx::n(2), Sx::i(*h)]));
+            }
+            ops.push(Sx::l(vec![Sx::n(3)]));
+            v.push(Sx::l(vec![Sx::b(true), Sx::l(rules), Sx::l(ops)]));
+        }
+    }
     v
 }
 
